@@ -27,7 +27,7 @@ def remount_session(rng, conf, nops, points):
     toks = fmt.split()
     bps = 512 if toks[1] == "-" else int(toks[1])
     g.cluster = bps if toks[3] == "-" else int(toks[3])
-    head = ["dev %d 0" % size, "wlog 0", fmt, "pages", "wlog 1", "mount 1 0 lossy"]
+    head = [sessions.dev_line(rng, size), "wlog 0", fmt, "pages", "wlog 1", "mount 1 0 lossy"]
     for k in range(points):
         target = len(g.lines) + nops // points
         while len(g.lines) < target:
